@@ -441,6 +441,17 @@ impl VisitMut for Rw {
                     m.args[0] = parse_quote!(|e| #c(e));
                     self.log.push("R16 constructor eta-expanded".into());
                     None
+                } else if let Some((_, to)) = self.method_maps.iter().find(|(f, _)| *f == format!("call:{name}")) {
+                    let callee: Path = parse_str(to.trim_start_matches("&*")).unwrap();
+                    let recv = (*m.receiver).clone();
+                    let args = m.args.clone();
+                    self.log.push(format!("R8 method call .{name}() -> {to}()"));
+                    if to.starts_with("&*") {
+                        // the method's auto-deref of its receiver (String -> str) made explicit
+                        Some(parse_quote!(#callee(&*#recv, #args)))
+                    } else {
+                        Some(parse_quote!(#callee(#recv, #args)))
+                    }
                 } else if let Some((_, to)) = self.method_maps.iter().find(|(f, _)| *f == name) {
                     m.method = Ident::new(to, m.method.span());
                     self.log.push(format!("R8 method {name} -> {to}"));
@@ -460,6 +471,14 @@ impl VisitMut for Rw {
                     self.check_log_args(&m.mac);
                     self.log.push(format!("R5 {name}! dropped (expression position)"));
                     Some(parse_quote!(()))
+                } else if name == "write" || name == "format" {
+                    match self.rewrite_fmt(&m.mac, name == "write") {
+                        Some(e) => Some(e),
+                        None => {
+                            self.unsupported.push(format!("{name}! with an unsupported format string: {}", m.mac.tokens));
+                            None
+                        }
+                    }
                 } else {
                     None
                 }
@@ -562,6 +581,75 @@ impl VisitMut for Rw {
 }
 
 impl Rw {
+    /// R6: `write!(f, "lit {} lit {}", a, b)` -> `f.vx_write_string(vx_cat(.. vx_lit("lit ") .. vx_disp(&a) ..))`:
+    /// the pieces of the literal and the `{}` arguments, concatenated in order (core::fmt's definition for `{}`)
+    fn rewrite_fmt(&mut self, m: &Macro, is_write: bool) -> Option<Expr> {
+        let args: Punctuated<Expr, Token![,]> = m.parse_body_with(Punctuated::parse_terminated).ok()?;
+        let mut it = args.into_iter();
+        let dest = if is_write { Some(it.next()?) } else { None };
+        let lit = match it.next()? {
+            Expr::Lit(ExprLit { lit: Lit::Str(s), .. }) => s.value(),
+            _ => return None,
+        };
+        let mut rest: Vec<Expr> = it.collect();
+        let mut pieces: Vec<Expr> = Vec::new();
+        let mut cur = String::new();
+        let cs: Vec<char> = lit.chars().collect();
+        let mut i = 0;
+        let mut argi = 0;
+        while i < cs.len() {
+            if cs[i] == '{' && i + 1 < cs.len() && cs[i + 1] == '{' {
+                cur.push('{');
+                i += 2;
+            } else if cs[i] == '}' && i + 1 < cs.len() && cs[i + 1] == '}' {
+                cur.push('}');
+                i += 2;
+            } else if cs[i] == '{' {
+                let j = (i..cs.len()).find(|&j| cs[j] == '}')?;
+                let inner: String = cs[i + 1..j].iter().collect();
+                if !cur.is_empty() {
+                    let l = cur.clone();
+                    pieces.push(parse_quote!(vx_lit(#l)));
+                    cur.clear();
+                }
+                let arg: Expr = if inner.is_empty() {
+                    let a = rest.get(argi)?.clone();
+                    argi += 1;
+                    a
+                } else if inner.chars().all(|c| c.is_alphanumeric() || c == '_') && !inner.chars().next()?.is_numeric() {
+                    let id = Ident::new(&inner, Span::call_site());
+                    parse_quote!(#id)
+                } else {
+                    return None; // {:?}, width, positional: outside the supported subset
+                };
+                pieces.push(parse_quote!(vx_disp(&#arg)));
+                i = j + 1;
+            } else {
+                cur.push(cs[i]);
+                i += 1;
+            }
+        }
+        if !cur.is_empty() {
+            pieces.push(parse_quote!(vx_lit(#cur)));
+        }
+        if argi != rest.len() {
+            return None;
+        }
+        rest.clear();
+        let mut acc: Expr = match pieces.first() {
+            Some(p) => p.clone(),
+            None => parse_quote!(vx_lit("")),
+        };
+        for p in pieces.iter().skip(1) {
+            acc = parse_quote!(vx_cat(#acc, #p));
+        }
+        self.log.push("R6 format string expanded into its pieces".into());
+        Some(match dest {
+            Some(d) => parse_quote!(#d.vx_write_string(#acc)),
+            None => acc,
+        })
+    }
+
     fn check_log_args(&mut self, m: &Macro) {
         // R5 soundness side condition: the dropped arguments are side-effect free
         let s = m.tokens.to_string();
